@@ -4,7 +4,9 @@ from common import *
 from c19_ext import *
 from c01 import trace_const
 from c19_flow import *
-from irlib import tyname
+from irlib import tyname, keep_all_but_new_helpers
+
+THREAD_PASSES = 'mem2reg,instsimplify,simplifycfg,jump-threading,simplifycfg,instsimplify'
 
 
 def run(rep, repo, tier):
@@ -190,7 +192,9 @@ def run_shells(rep, repo):
                 'rshell_tables_execute': FnSpec(setup=chain(cstr_args(0), const_table_args(1))),
                 'rshell_execute_v': FnSpec(setup=sized_params((1, 0), elem=8),
                                            pre=['arg0 >= 1', 'arg0 <= 1048576', 'arg4 >= 0', 'arg4 <= 10'])})):
-        mod = compile_ir(repo + '/' + rel, repo)
+        # file-local helpers (e.g. a table look-up factored out of the dispatchers) are folded into their callers and the
+        # test of their result is threaded back onto the paths that produced it, so the rules see one table walk
+        mod = compile_ir(repo + '/' + rel, repo, inline=keep_all_but_new_helpers(), passes=THREAD_PASSES)
         rep.units.append(rel)
         it = Interp(mod, externals=LIBC_EXT)
         mon = ArgvMonitor(it)
